@@ -98,6 +98,7 @@ pub fn xml_profile(max_nodes: usize, known_only: bool, text: TextMode) -> Forest
         exclude_unknown_types: vec![],
         multi_spelling: false,
         non_serializing: true,
+        narrow_numbers: true,
     }
 }
 
